@@ -8,8 +8,8 @@ TRUSTED = [
     "Deferred / inlineCallbacks / LoopingCall / DelayedCall semantics as flattened into the handlers of Afkak/Consumer.lean",
 ]
 ASSUMPTIONS = [
-    "the processor returns None, raises, or returns a plain Deferred; API calls made from inside the processor (stop/commit/shutdown) do not themselves trigger processor invocations that re-enter the API",
-    "a client request completes at most once; a request whose cancel the client swallowed completes later with a failure (client_iface.md)",
+    "model and theorems: the processor calls stop/commit/shutdown (not start) from inside a call and returns None, raises, or returns a plain Deferred (one that fires when cancelled); API calls made from inside the processor do not themselves trigger processor invocations that re-enter the API. Outside this (restart from inside the processor, Deferreds that outlive their cancellation) only the beyond-model stage applies: Lean monitors on implementation traces, no model",
+    "a client request completes at most once; a fetch/offset request whose cancel the client swallowed completes later, with a failure or a success (client_iface.md: the client goes on resolving metadata), and the consumer drops that late result; a coordinator-routed commit whose cancel was swallowed completes later only with a failure",
     "an offset / offset-fetch reply carries exactly one response for the consumer's partition",
 ]
 
